@@ -196,6 +196,10 @@ VarioPairs(S, w) == PairsOf(S, w, LAMBDA i : IsActive(S[i]))
 DeclPairs(S, w)  == PairsOf(S, w, LAMBDA i : SelOn(S[i]))
 SwOf(S, pairs) == [k \in 1..NLag |-> Cardinality({p \in pairs : Lag(S[p[1]].id, S[p[2]].id) = k - 1})]
 
+\* experimental covariance: same pairs; the products are centred with the mean of every active sample whose
+\* value is defined (Vario::_getStatistics / _centerCovariance), whatever its coordinates
+CenteringData(S) == DataVM(S, LAMBDA i, w : IsActive(S[i]) /\ S[i].z[w])
+
 \* migrate point -> point (CalcMigrate::_expandPointToPoint): nearest ACTIVE sample, whatever its value;
 \* with flag_ball: nearest sample of a tree holding all samples (no selection)
 NearestOf(S, A, t) == IF A = {} THEN 0 ELSE SortByDist(S, A, t)[1]
@@ -207,17 +211,19 @@ MigrateBallSrc(S, t) == IF {i \in DOMAIN S : S[i].c} # {} THEN NearestOf(S, {i \
 DeclMigrateSrc(S, t) == NearestOf(S, {i \in DOMAIN S : UsableDatum(S[i], 1, {"c"})}, t)
 
 \* migrate point -> grid without filling (_migratePointToGrid): every located active sample with a defined value
-\* is assigned to the node of its cell (one sample per cell in this geometry)
-GridAssign(S, P(_)) == [g \in Nodes |-> IF \E i \in DOMAIN S : P(i) /\ CellOf(S[i].id) = g
-                                      THEN CHOOSE i \in DOMAIN S : P(i) /\ CellOf(S[i].id) = g ELSE 0]
-MigrateGrid(S)     == GridAssign(S, LAMBDA i : IsActive(S[i]) /\ S[i].c /\ S[i].z[1])
-DeclMigrateGrid(S) == GridAssign(S, LAMBDA i : UsableDatum(S[i], 1, {"c"}))
+\* is assigned to the node of its mesh (the samples of this geometry lie in distinct meshes, whatever the
+\* convention -- centred or not -- used to locate a point): the values written are those of these samples
+MigrateGrid(S)     == Idx(S, LAMBDA i : IsActive(S[i]) /\ S[i].c /\ S[i].z[1])
+DeclMigrateGrid(S) == Idx(S, LAMBDA i : UsableDatum(S[i], 1, {"c"}))
 \* ... with filling (expandPointToGrid): nearest usable sample of every node.  The code ranks the COMPRESSED list of
 \* the active samples with a defined value, then uses these ranks as row numbers of the Db (coordinates and value
 \* are read at row rank): right only when the compressed list is the list of the first rows
 NearestToNode(S, A, g) == IF A = {} THEN 0 ELSE CHOOSE i \in A : \A j \in A : D2SG(S[i].id, g) <= D2SG(S[j].id, g)
+\* (the work array is dimensioned with getSampleNumber(true) and ranked as a whole; with no active sample the
+\* empty rank array is read at index 0)
 FillList(S) == Idx(S, LAMBDA i : IsActive(S[i]) /\ S[i].z[1])
-MigrateFill(S) == IF FillList(S) = [k \in 1..Len(FillList(S)) |-> k] /\ \A k \in DOMAIN FillList(S) : S[k].c
+MigrateFill(S) == IF /\ FillList(S) = [k \in 1..Len(FillList(S)) |-> k] /\ \A k \in DOMAIN FillList(S) : S[k].c
+                     /\ Len(FillList(S)) = Cardinality({i \in DOMAIN S : CountedActive(S[i])}) /\ FillList(S) # <<>>
                   THEN [g \in Nodes |-> NearestToNode(S, Range(FillList(S)), g)]
                   ELSE [g \in Nodes |-> -1]
 DeclMigrateFill(S) == [g \in Nodes |-> NearestToNode(S, {i \in DOMAIN S : UsableDatum(S[i], 1, {"c"})}, g)]
@@ -248,7 +254,7 @@ DeclRows(S) == LET r == Idx(S, LAMBDA i : SelOn(S[i])) IN <<r, Len(r), r, r, r>>
 KNeeds == IF HasF THEN {"c", "f"} ELSE {"c"}      \* what kriging reads of a sample
 
 OpNames == <<"krig_u", "krig_m", "krig_mb", "neigh_u", "neigh_m", "neigh_mb", "xvalid_u", "xvalid_m",
-             "vario", "stat", "stat_iso", "cov", "cov_sym", "drift", "simtub", "simtub_pt", "migrate",
+             "vario", "vario_cov", "stat", "stat_iso", "cov", "cov_sym", "drift", "simtub", "simtub_pt", "migrate",
              "migrate_ball", "migrate_grid", "migrate_fill", "reduce">>
 Ops == Range(OpNames)
 
@@ -257,7 +263,7 @@ NeedsOf(op) ==
   CASE op \in {"krig_u", "krig_m", "krig_mb", "xvalid_u", "xvalid_m", "simtub", "simtub_pt"} -> KNeeds
     [] op = "neigh_u" -> {}                  \* ANeigh promises: not masked, not all undefined (the rest is _flagDefine's)
     [] op \in {"neigh_m", "neigh_mb"} -> {"c"}
-    [] op = "vario" -> {"c"}
+    [] op \in {"vario", "vario_cov"} -> {"c"}
     [] op \in {"stat", "stat_iso"} -> {}
     [] op = "cov" -> {"c"}
     [] op = "cov_sym" -> {"c", "v"}
@@ -273,7 +279,9 @@ KindOf(op) ==
     [] op = "neigh_u" -> "idx"
     [] op = "reduce" -> "rows5"
     [] op \in {"neigh_m", "neigh_mb"} -> "tidx"
-    [] op \in {"migrate", "migrate_ball", "migrate_grid", "migrate_fill"} -> "tsrc"
+    [] op \in {"migrate", "migrate_ball", "migrate_fill"} -> "tsrc"
+    [] op = "migrate_grid" -> "idx"
+    [] op = "vario_cov" -> "countidx"
     [] op = "vario" -> "count"
     [] op = "simtub_pt" -> "datasrc"
 
@@ -285,6 +293,7 @@ DeclOf(op, S) ==
     [] op = "neigh_u" -> Keep(S, {})
     [] op \in {"neigh_m", "neigh_mb"} -> [t \in Targets |-> DeclNbMoving(S, t, {"c"})]
     [] op = "vario" -> [w \in Vars |-> SwOf(S, DeclPairs(S, w))]
+    [] op = "vario_cov" -> <<[w \in Vars |-> SwOf(S, DeclPairs(S, w))], DeclData(S, {"c"})>>
     [] op = "stat" -> DeclStat(S, FALSE)
     [] op = "stat_iso" -> DeclStat(S, TRUE)
     [] op = "cov" -> DeclData(S, {"c"})
@@ -308,6 +317,7 @@ CodeOf(op, S) ==
     [] op = "neigh_m" -> [t \in Targets |-> NbMoving(S, t)]
     [] op = "neigh_mb" -> [t \in Targets |-> NbMovingBall(S, t)]
     [] op = "vario" -> [w \in Vars |-> SwOf(S, VarioPairs(S, w))]
+    [] op = "vario_cov" -> <<[w \in Vars |-> SwOf(S, VarioPairs(S, w))], CenteringData(S)>>
     [] op = "stat" -> StatData(S, FALSE)
     [] op = "stat_iso" -> StatData(S, TRUE)
     [] op = "cov" -> RanksData(S, FALSE)
@@ -331,6 +341,7 @@ ToId(op, S, x) ==
     [] KindOf(op) = "tidx"  -> [t \in Targets |-> IdxToId(S, x[t])]
     [] KindOf(op) = "tsrc"  -> [t \in DOMAIN x |-> IF x[t] <= 0 THEN x[t] ELSE S[x[t]].id]
     [] KindOf(op) = "count" -> x
+    [] KindOf(op) = "countidx" -> <<x[1], PairsToId(S, x[2])>>
     [] KindOf(op) = "rows5" -> <<IdxToId(S, x[1]), x[2], IdxToId(S, x[3]), IdxToId(S, x[4]), IdxToId(S, x[5])>>
     [] KindOf(op) = "datasrc" -> <<PairsToId(S, x[1]),
                                    [t \in Targets |-> [w \in Vars |-> IF x[2][t][w] = 0 THEN 0 ELSE S[x[2][t][w]].id]]>>
@@ -404,6 +415,8 @@ ModelDeviation(op, S) ==
        \*    samples although _flagDefine also removed the samples without coordinates / external drift
   \/ op = "migrate_fill" /\ (ft.sel_off \/ ft.zall_na \/ ft.hetero \/ ft.coord_na)
        \* D10 expandPointToGrid uses ranks of the compressed list of usable samples as row numbers of the Db
+  \/ op = "vario_cov" /\ ft.coord_na
+       \* D11 the experimental covariance is centred with a mean that includes the samples without coordinates
   \/ op = "simtub_pt"
        \* D8 point targets: target t is overwritten with the value of data ROW t (index of the output Db used
        \*    in the input Db), so the result depends on the row numbers, which masked samples shift
